@@ -22,9 +22,10 @@ def run(tier, seed):
     states = transitions = 0
     thorough = tier == "thorough"
     # ---- (1) possibility: two-phase spec, witness continuation, CanDecide as a state invariant ----
-    classes = [dict(name="cont-A0-silent", ByzBudget=0, ByzActs="NoActs", MaxRound=2, sw="any")]
+    classes = [dict(name="cont-A0-silent-quiescent", ByzBudget=0, ByzActs="NoActs", MaxRound=2, sw="quiescent")]
     if thorough:
         classes += [
+            dict(name="cont-A0-silent", ByzBudget=0, ByzActs="NoActs", MaxRound=2, sw="any"),
             dict(name="cont-A0-offset1", ByzBudget=0, ByzActs="NoActs", MaxRound=2, sw="any", LeaderOffset=1),
             dict(name="cont-A0-offset2", ByzBudget=0, ByzActs="NoActs", MaxRound=2, sw="any", LeaderOffset=2),
             dict(name="cont-A0-offset3-byz-leader", ByzBudget=0, ByzActs="NoActs", MaxRound=2, sw="any", LeaderOffset=3),
